@@ -40,6 +40,7 @@ func wide() { return [1,2,3,4,5,6,7,8,9,10,11,12,13,14,15,16,17,18,19,20].map(fu
 func spin() { x := 0; for i := 0; i < 100000000; i++ { x++ }; return x }
 func useDefer(n) { defer func() { counter = counter + 100 }(); return loop(n) }
 func mkc(x) { f := func() { return x * 2 }; g := func() { return f() + 1 }; if x < 0 { error("neg-closure") }; return g() }
+func spind() { defer func() { counter = counter + 1000 }(); x := 0; for i := 0; i < 100000000; i++ { x++ }; return x }
 func spinc(x) { f := func() { return x }; for i := 0; i < 100000000; i++ { x = x + 0 }; return f() }
 func imp(k) { import cmod; return cmod.value + cmod.pre + k }
 func imp2(k) { import cmod2; return cmod2.answer + k }
@@ -156,6 +157,10 @@ func genHistory(g *sim.Stream, f *sim.Stream) []*invocation {
 	if themeNested && n < 4 {
 		n = 4
 	}
+	themeDefer := mainFamily && !themeNested && g.Chance(1, 10)
+	if themeDefer && n < 5 {
+		n = 5
+	}
 	themeRequest := !mainFamily && g.Chance(1, 20)
 	themeStale4 := !mainFamily && !themeRequest && g.Chance(1, 15)
 	if themeStale4 && n < 5 {
@@ -185,6 +190,22 @@ func genHistory(g *sim.Stream, f *sim.Stream) []*invocation {
 				iv.API, iv.Kind = "Call", kNormal
 				iv.Fn, iv.Args, iv.Stateful = "imp4", []int{g.Intn(9)}, true
 				mod4Loaded = true
+			}
+			hist = append(hist, iv)
+			continue
+		}
+		if themeDefer && k >= 1 && k <= 4 {
+			// theme: an invocation is cancelled inside a function that has a
+			// deferred call pending; plain calls and counter reads follow
+			iv.API = "Call"
+			switch k {
+			case 1:
+				iv.Kind, iv.Fn = kCancelled, "spind"
+				iv.OwnDelta = 1 + f.Intn(300)
+			case 2:
+				iv.Kind, iv.Fn, iv.Args = kNormal, "add", []int{g.Intn(50), g.Intn(50)}
+			default:
+				iv.Kind, iv.Fn, iv.Stateful = kNormal, "bump", true
 			}
 			hist = append(hist, iv)
 			continue
@@ -365,13 +386,29 @@ func genHistory(g *sim.Stream, f *sim.Stream) []*invocation {
 			iv.API = "RunCode"
 			switch kind {
 			case kNormal:
-				if g.Chance(1, 2) {
+				if g.Chance(1, 8) {
+					// risor.Call: the library is evaluated, then one of its functions is
+					// called, in one API call on the reused VM
+					iv.API, iv.IsLib = "RisorCall", true
+					iv.Src = c07Lib + fmt.Sprintf("\n%d\n", 1000+g.Intn(20))
+					switch g.Intn(3) {
+					case 0:
+						iv.Fn, iv.Args = "add", []int{g.Intn(50), g.Intn(50)}
+					case 1:
+						iv.Fn = "bump"
+					default:
+						iv.Fn, iv.Args = "loop", []int{g.Range(1, 40)}
+					}
+				} else if g.Chance(1, 2) {
 					iv.IsLib = true
 					iv.Src = c07Lib + fmt.Sprintf("\n%d\n", 1000+g.Intn(1000))
 					if g.Bool() {
 						iv.Src = c07LibTop4 + iv.Src
 						libTop4 = true
 					}
+				} else if g.Chance(1, 7) {
+					// a Go container supplied by the host, changed by the script
+					iv.Src = "items.append(4)\nitems[0] = items[0] + 10\n[len(items), items[0]]"
 				} else if g.Chance(1, 6) {
 					// the host passes this invocation's own value for a global
 					iv.Src = "[request, len(request)]"
@@ -432,7 +469,7 @@ func genHistory(g *sim.Stream, f *sim.Stream) []*invocation {
 		if iv.API == "RunCode" && sawRunCode && iv.ReqTag == "" && !strings.Contains(iv.Src, "request") && g.Chance(1, 3) {
 			iv.NoOpts = true
 		}
-		if iv.API == "RunCode" {
+		if iv.API == "RunCode" || iv.API == "RisorCall" {
 			sawRunCode = true
 			mod3Loaded = false
 			mod4Loaded = libTop4 && iv.Kind == kNormal
@@ -441,7 +478,7 @@ func genHistory(g *sim.Stream, f *sim.Stream) []*invocation {
 			}
 		}
 		hist = append(hist, iv)
-		if iv.API == "RunCode" {
+		if iv.API == "RunCode" || iv.API == "RisorCall" {
 			libLive = iv.IsLib && iv.Kind == kNormal
 			if libLive {
 				libSeen = true
@@ -511,6 +548,17 @@ func compileSrc(src string, cfg *risor.Config) *compiler.Code {
 }
 
 // runInv performs one invocation on machine m.
+// c07Options remembers the option list each configuration was built from
+// (risor.Call takes options, not a Config).
+var c07Options sync.Map
+
+func c07OptionsOf(cfg *risor.Config) []risor.Option {
+	if v, ok := c07Options.Load(cfg); ok {
+		return append([]risor.Option{}, v.([]risor.Option)...)
+	}
+	return nil
+}
+
 // withOpts is the invocation as a fresh VM must receive it: with its options.
 func withOpts(iv *invocation) *invocation {
 	c := *iv
@@ -534,6 +582,18 @@ func runInv(ctx context.Context, m *vm.VirtualMachine, cfg *risor.Config, failIm
 			return invResult{Val: "<no TOS>"}
 		}
 		return invResult{Val: inspectOrNil(tos)}
+	}
+	if iv.API == "RisorCall" {
+		// risor.Call on the reused VM: evaluate the program, then call one of its functions
+		var args []object.Object
+		for _, a := range iv.Args {
+			args = append(args, object.NewInt(int64(a)))
+		}
+		v, err := risor.Call(ctx, code, iv.Fn, args, append(c07OptionsOf(cfg), risor.WithVM(m))...)
+		if err != nil {
+			return invResult{Err: err.Error(), Raw: err}
+		}
+		return invResult{Val: inspectOrNil(v)}
 	}
 	if iv.API == "RunCode" {
 		opts := cfg.VMOpts()
@@ -641,6 +701,7 @@ func runC07(rc *fw.RunCtx) {
 	extra["os"] = modOs.Module()
 	extra["hits"] = 0 // a data global supplied by the host, which scripts rebind
 	extra["request"] = "req-none" // replaced per invocation by some RunCodes
+	extra["items"] = []any{1, 2, 3}  // a Go container: every RunCode converts it afresh
 	var gnames []string
 	for k := range baseGlobals(extra) {
 		gnames = append(gnames, k)
@@ -666,7 +727,10 @@ func runC07(rc *fw.RunCtx) {
 		}
 		vmOS := simos.New()
 		vmOS.Setenv("WHO", "vm")
-		return risor.NewConfig(append(baseOpts(extra), risor.WithImporter(imp), risor.WithOS(vmOS))...)
+		ropts := append(baseOpts(extra), risor.WithImporter(imp), risor.WithOS(vmOS))
+		c := risor.NewConfig(ropts...)
+		c07Options.Store(c, ropts)
+		return c
 	}
 	cfg := newCfg()      // system under test
 
@@ -676,7 +740,7 @@ func runC07(rc *fw.RunCtx) {
 	codes := make([]*compiler.Code, len(hist))
 	bySrc := map[string]*compiler.Code{}
 	for i, iv := range hist {
-		if iv.API == "RunCode" || (iv.API == "Run" && iv.IsLib) {
+		if iv.API == "RunCode" || iv.API == "RisorCall" || (iv.API == "Run" && iv.IsLib) {
 			if c, ok := bySrc[iv.Src]; ok {
 				codes[i] = c
 				rc.Hit("same_code_object_run_again")
@@ -730,7 +794,7 @@ func runC07(rc *fw.RunCtx) {
 				}
 				expected[k] = runInv(ctxK, m, cfgModel, &failImport, withOpts(iv), codes[k])
 			}
-			if iv.API == "RunCode" || (iv.API == "Run" && iv.IsLib) {
+			if iv.API == "RunCode" || iv.API == "RisorCall" || (iv.API == "Run" && iv.IsLib) {
 				if iv.IsLib && iv.Kind == kNormal {
 					libIdx = k
 				} else {
@@ -843,7 +907,7 @@ func runC07(rc *fw.RunCtx) {
 			} else {
 				got[k] = runInv(ctxs[k], machine, cfg, &failImport, iv, codes[k])
 			}
-			if (iv.API == "RunCode" || iv.API == "Run") && iv.IsLib && got[k].Err == "" {
+			if (iv.API == "RunCode" || iv.API == "RisorCall" || iv.API == "Run") && iv.IsLib && got[k].Err == "" {
 				prevFn, prevModFn = staleFn, staleModFn
 				if fnObj, err := machine.Get("add"); err == nil {
 					staleFn, _ = fnObj.(*object.Function)
